@@ -17,6 +17,17 @@ NAMED = {
 }
 
 
+def _controlled(U):
+    out = numpy.eye(4, dtype=complex)
+    out[2:, 2:] = U
+    return out
+
+
+for _n in ('Y', 'H', 'S', 'Sdg', 'T', 'Tdg'):      # tket's definitions: control first, CSdg = controlled Sdg
+    if 'C' + _n not in NAMED:
+        NAMED['C' + _n] = _controlled(NAMED[_n])
+
+
 def gate_matrix(name, params):
     if name in NAMED:
         return NAMED[name]
